@@ -8,8 +8,8 @@ T=/root/.rustup/toolchains/nightly-x86_64-unknown-linux-gnu/lib/rustlib/x86_64-u
 S=/tmp/cov
 mode="${1:-quick}"; [ $# -gt 0 ] && shift
 mkdir -p $S/prof
-(cd /verif/sim && RUSTFLAGS="--cfg cc6502_verif -C instrument-coverage" cargo +nightly build --release --offline --target-dir $S/target 2>&1 | tail -1)
 export LLVM_PROFILE_FILE=$S/prof/%p-%m.profraw
+(cd /verif/sim && RUSTFLAGS="--cfg cc6502_verif -C instrument-coverage" cargo +nightly build --release --offline --target-dir $S/target 2>&1 | tail -1)
 if [ "$mode" = quick ]; then
   root=$S/verif; rm -rf $root; mkdir -p $root; cp -r /verif/corpus /verif/KNOWN_FINDINGS.txt $root/
   (cd $root && VERIF_ROOT=$root $S/target/release/simc check C16 quick 2>&1 | grep "search done")
